@@ -14,6 +14,7 @@ stored element dropped exactly once (the last for histories that run without an 
 element types with drop glue so that destructor calls are visible in the log).
 -/
 import Hb.Proofs.History
+import Hb.Proofs.HistoryX
 namespace Hb.C05
 open Hb
 
@@ -35,6 +36,18 @@ theorem broken_hash_eq_safe (hc : CfgOk cfg) (hg : GuardRuns cfg) (env : Env) :
         TInv cfg w.t ∧ w.t.items = w.t.elems.length) ∧
       ((∀ j, env.allocOk j = true) → ∃ obs w, Map.run cfg env ops w0 = some (obs, w))) :=
   ⟨fun op w h => step_safe hc hg env op w h, fun ops w0 h0 => run_safe hc hg env ops w0 h0⟩
+
+/-- The same over the WHOLE modelled API (`MapOpX`: additionally `entry` / `entry_ref` / `rustc_entry`
+    / `raw_entry_mut` with any method chain and any caller-supplied hash, `raw_entry`, `try_insert`,
+    `extend`, `get_many_mut`, `Index`): with arbitrary call-dependent `Hash`/`Eq` answers and panics no
+    history is undefined behaviour, and the table is valid with `len` = stored elements after every
+    call, returned or unwound. -/
+theorem broken_hash_eq_safe_all_calls (hc : CfgOk cfg) (hg : GuardRuns cfg) (env : Env)
+    (ops : List MapOpX) (w0 : World) (h0 : TInv cfg w0.t) :
+    Map.runXFaults cfg env ops w0 = false ∧
+    (∀ obs w, Map.runX cfg env ops w0 = some (obs, w) → TInv cfg w.t ∧ w.t.items = w.t.elems.length) ∧
+    ((∀ j, env.allocOk j = true) → ∃ obs w, Map.runX cfg env ops w0 = some (obs, w)) :=
+  runX_safe_from hc hg env ops w0 h0
 
 /-- After ANY history with ANY `Hash`/`Eq`: `len()` is exactly the number of buckets an iterator
     visits, the number of elements `.iter p` yields for `p ≥ len`, and the number a complete `drain`
@@ -81,6 +94,7 @@ theorem elements_dropped_once (hc : CfgOk cfg) (hnd : cfg.needsDrop = true) (env
   dropAll_ledger hc hnd env hdp ops w0 h0 hl0 hnf hrun hret
 
 #print axioms broken_hash_eq_safe
+#print axioms broken_hash_eq_safe_all_calls
 #print axioms len_equals_yielded
 #print axioms lookups_terminate
 #print axioms elements_dropped_once
